@@ -71,7 +71,14 @@ pub(crate) struct DropAll(Weak<GuardInner>);
 impl Drop for DropAll {
     fn drop(&mut self) {
         if let Some(guard) = self.0.upgrade() {
+            metrique_writer_core::__verif_point!("ka.fd_upgraded");
             if let Some(f) = guard.lock().unwrap().take() {
+                metrique_writer_core::__verif_point!("ka.fd_taken");
+                #[cfg(metrique_verif)]
+                let f = || {
+                    f();
+                    metrique_writer_core::__verif_point!("ka.fd_called");
+                };
                 (f)()
             }
         }
